@@ -93,9 +93,11 @@ class CriticalPathCalculator:
     @staticmethod
     def __leaf_predecessors(task: Task) -> List[Task]:
         # a summary task given as predecessor stands for all of its leaf tasks
+        # and predecessors of a parent summary task bind every task below it
         res = []
-        for p in task.predecessors:
-            res += CriticalPathCalculator.__leaves(p)
+        for t in [task] + [p for p in task.all_parents]:
+            for p in t.predecessors:
+                res += CriticalPathCalculator.__leaves(p)
         return res
 
     def __new_node(self) -> _PNode:
